@@ -313,6 +313,43 @@ class Gen(object):
         t = parse_type(t)
         r = self.rng
         s = lambda: self.scalar(stream)     # noqa: E731
+        if hint == 'convexquad' and isinstance(t, tuple) and t[0] == 'tup':
+            # convex quad with random shape, counter-clockwise or clockwise
+            while True:
+                angs = sorted(r.uniform(0, 2 * math.pi) for _ in range(4))
+                if min(b - a for a, b in zip(angs, angs[1:] + [angs[0] + 2 * math.pi])) > 0.3 \
+                        and max(b - a for a, b in zip(angs, angs[1:] + [angs[0] + 2 * math.pi])) < 2.8:
+                    break
+            if stream == 'lattice':
+                base = r.choice([[(0, 0), (4, 0), (3, 2), (0, 1)], [(0, 0), (2, 0), (2, 2), (0, 2)],
+                                 [(1, 0), (5, 1), (4, 4), (0, 2)], [(0, 0), (3, 0), (5, 3), (1, 2)]])
+                pts2 = [Point2D(float(x), float(y)) for x, y in base]
+            else:
+                rad = r.uniform(0.5, 20)
+                cx, cy = s(), s()
+                pts2 = [Point2D(cx + rad * r.uniform(0.6, 1.0) * math.cos(a),
+                                cy + rad * r.uniform(0.6, 1.0) * math.sin(a)) for a in angs]
+                # radial jitter may break convexity: fall back to the circle points
+                poly = None
+                from ladybug_geometry.geometry2d.polygon import Polygon2D
+                if not Polygon2D(pts2).is_convex:
+                    pts2 = [Point2D(cx + rad * math.cos(a), cy + rad * math.sin(a))
+                            for a in angs]
+            if r.random() < 0.5:
+                pts2.reverse()
+            if t[1] == 'V2':
+                return tuple(pts2)
+            pl = self.value('PlaneS', 'Plane', 'lattice' if stream == 'lattice' else 'real')
+            return tuple(pl.xy_to_xyz(q) for q in pts2)
+        if isinstance(t, tuple) and t[0] == 'tup':
+            pcs = pycls if isinstance(pycls, (tuple, list)) else [pycls] * (len(t) - 1)
+            return tuple(self.value(tt, pc, stream) for tt, pc in zip(t[1:], pcs))
+        if t == 'BP':
+            if pycls and pycls.endswith('_Node'):
+                from ladybug_geometry.triangulation import _Node
+                return _Node(0, s(), s())
+            from ladybug_geometry.boolean import BooleanPoint
+            return BooleanPoint(s(), s())
         if hint == 'unit':
             return self.unit2(stream) if t == 'V2' else self.unit3(stream)
         if hint == 'nonzero':
